@@ -83,7 +83,8 @@ type Comp struct {
 
 // Case is a file set plus page data.
 type Case struct {
-	Names []string          `json:"names"` // the names every block prints (besides u0 and the d-variables)
+	Names []string          `json:"names"`           // the names every block prints (besides u0)
+	Print []string          `json:"print,omitempty"` // further includer variables every block prints (never shadowed)
 	Data  map[string]vals.V `json:"data,omitempty"`
 	Comps []Comp            `json:"comps"`
 	Page  []Inc             `json:"page"`
@@ -97,14 +98,12 @@ const undefName = "u0" // never defined anywhere: the in-render reference for "n
 func (c Case) printed() []string {
 	out := append([]string(nil), c.Names...)
 	out = append(out, undefName)
-	var extra []string
-	for k := range c.Data {
-		if !contains(c.Names, k) && k != undefName {
-			extra = append(extra, k)
+	for _, k := range c.Print {
+		if !contains(out, k) {
+			out = append(out, k)
 		}
 	}
-	sort.Strings(extra)
-	return append(out, extra...)
+	return out
 }
 
 func contains(l []string, s string) bool {
@@ -1004,7 +1003,7 @@ func genCase(rec *ev.Rec, known *kf.File) func(t *rapid.T) Case {
 	avoidNested := known.Open(kfNested)
 	return func(t *rapid.T) Case {
 		g := &valGen{}
-		c := Case{Names: universe[:rapid.IntRange(2, 4).Draw(t, "names")], Data: map[string]vals.V{}}
+		c := Case{Names: universe[:rapid.IntRange(2, 4).Draw(t, "names")], Print: []string{"d1", "dm"}, Data: map[string]vals.V{}}
 		for _, n := range c.Names {
 			if rapid.Bool().Draw(t, "data."+n) {
 				c.Data[n] = g.next(t, "dataval."+n, true, false)
@@ -1068,9 +1067,9 @@ func genCase(rec *ev.Rec, known *kf.File) func(t *rapid.T) Case {
 		// 2: may also name something only the includer's scope has (unspecified, unasserted).
 		mode := 0
 		switch x := rapid.IntRange(0, 99).Draw(t, "reqmode"); {
-		case x >= 88:
+		case x >= 90:
 			mode = 2
-		case x >= 62:
+		case x >= 55:
 			mode = 1
 		}
 		for i := range c.Comps {
@@ -1089,7 +1088,12 @@ func genCase(rec *ev.Rec, known *kf.File) func(t *rapid.T) Case {
 			}
 			var req []string
 			for _, nm := range pool {
-				if rapid.IntRange(0, 9).Draw(t, fmt.Sprintf("c%d.req.%s", i, nm)) < 6 {
+				st := status[i][nm]
+				limit := 5
+				if st.missing > 0 || st.scopeOnly > 0 {
+					limit = 8 // the mode asked for these
+				}
+				if rapid.IntRange(0, 9).Draw(t, fmt.Sprintf("c%d.req.%s", i, nm)) < limit {
 					req = append(req, nm)
 				}
 			}
@@ -1140,7 +1144,7 @@ func enumFlat(yield func(Case) bool) int {
 		total *= per
 	}
 	for x := 0; x < total; x++ {
-		c := Case{Names: names, Data: fixedData(), Comps: []Comp{{Name: "CardA", Wrap: x%2 == 0}}, NestedShort: true}
+		c := Case{Names: names, Print: []string{"d1"}, Data: fixedData(), Comps: []Comp{{Name: "CardA", Wrap: x%2 == 0}}, NestedShort: true}
 		inc := Inc{Comp: 0}
 		var req []string
 		y := x
@@ -1198,7 +1202,7 @@ func enumTwice(yield func(Case) bool) int {
 	n := 0
 	for x := 0; x < 625*4; x++ {
 		y := x
-		c := Case{Names: names, Data: fixedData(), Comps: []Comp{{Name: "Badge", Wrap: x%2 == 1}}, NestedShort: true}
+		c := Case{Names: names, Print: []string{"dm"}, Data: fixedData(), Comps: []Comp{{Name: "Badge", Wrap: x%2 == 1}}, NestedShort: true}
 		incs := []Inc{{Comp: 0}, {Comp: 0}}
 		for k := range incs {
 			for ni, nm := range names {
@@ -1243,7 +1247,7 @@ func enumChain(yield func(Case) bool) int {
 	n := 0
 	for x := 0; x < 2*10*10*10*2; x++ {
 		y := x
-		c := Case{Names: []string{nm, "vb2"}, Data: fixedData(), NestedShort: true}
+		c := Case{Names: []string{nm, "vb2"}, Print: []string{"d1"}, Data: fixedData(), NestedShort: true}
 		visible := y&1 != 0
 		y /= 2
 		if visible {
@@ -1313,7 +1317,7 @@ func enumTypes(includeFalsy bool, yield func(Case) bool) (n, skipped int) {
 					skipped++
 					continue
 				}
-				c := Case{Names: []string{"va1", "vb2"}, Data: fixedData(), Comps: []Comp{{Name: "PanelItemD", Wrap: coll&2 != 0, Req: []Req{{":required", "va1"}}}}, NestedShort: true}
+				c := Case{Names: []string{"va1", "vb2"}, Print: []string{"src", "d0"}, Data: fixedData(), Comps: []Comp{{Name: "PanelItemD", Wrap: coll&2 != 0, Req: []Req{{":required", "va1"}}}}, NestedShort: true}
 				c.Data["src"] = v
 				if coll&1 != 0 {
 					c.Data["va1"] = vals.Str("incl")
